@@ -89,7 +89,10 @@ func (man *chunkManager) OnChunkConsumed(chunk base.LogChunk) {
 
 func (man *chunkManager) OnChunkLeftover(chunk base.LogChunk) {
 	man.logger.Debugf("save leftover id=%s len=%d", chunk.ID, len(chunk.Data))
-	man.operator.UnloadChunk(&chunk)
+	if !man.UnloadOrDropChunk(&chunk) {
+		// the chunk could not be saved (space limit, I/O error or no queue dir): it's lost and counted as dropped
+		return
+	}
 	man.metrics.pendingChunks.Dec()
 	man.metrics.leftoverChunksTotal.Inc()
 }
